@@ -32,7 +32,7 @@ ASSUMPTIONS = [
     "magnitudes are bounded by 2^2200 (numerators, denominators and integers) to keep allocation small",
 ]
 
-IMPL_ENV = {"SV_TIMEOUT_MS": "60000"}
+IMPL_ENV = {"SV_TIMEOUT_MS": "30000"}
 OPS = ["<", "=<", ">", ">=", "=:=", "=\\="]
 
 
@@ -463,7 +463,7 @@ def run(ctx):
         retried += len(flaky)
         core.log("[C04] %d case(s) disturbed (load?), re-running each alone, attempt %d: %s" % (
             len(flaky), attempt, [(c["id"], impl.get(c["id"] + "_l", "missing")[:40]) for c in flaky[:4]]))
-        for c in flaky[:300]:
+        for c in flaky[:40]:
             impl.update(core.run_impl(c["impl"], env=IMPL_ENV))
     core.log("[C04] correspondence run: %d pairs, %.1fs, %d retried" % (len(cases), time.time() - t0, retried))
 
